@@ -269,7 +269,30 @@ func (e *Exec) resolveLocalClosure(v ssa.Value) *ssa.Function {
 	}
 	a, ok := u.X.(*ssa.Alloc)
 	if !ok {
-		return nil
+		// a variable of the enclosing function captured by this closure
+		fv, isFV := u.X.(*ssa.FreeVar)
+		if !isFV || fv.Parent() == nil || fv.Parent().Parent() == nil {
+			return nil
+		}
+		inner := fv.Parent()
+		idx := -1
+		for i, x := range inner.FreeVars {
+			if x == fv {
+				idx = i
+			}
+		}
+		for _, b := range inner.Parent().Blocks {
+			for _, in := range b.Instrs {
+				if mc, ok := in.(*ssa.MakeClosure); ok && mc.Fn == ssa.Value(inner) && idx >= 0 && idx < len(mc.Bindings) {
+					if al, ok := mc.Bindings[idx].(*ssa.Alloc); ok {
+						a = al
+					}
+				}
+			}
+		}
+		if a == nil {
+			return nil
+		}
 	}
 	var found *ssa.Function
 	n := 0
@@ -924,6 +947,32 @@ func (e *Exec) contractCall(fr *frame, st *State, callee *ssa.Function, spec *Fu
 		}
 	}
 	short := shortName(key)
+	// logical variables of the callee's contract are bound by the caller's
+	// `callghost` clauses (evaluated in the caller's scope at the call)
+	for _, gp := range spec.GhostParams {
+		var bound Expr
+		if e.spec != nil && callee != nil {
+			if m, ok := fr.specCallGhost(callee.Name()); ok {
+				bound = m[gp.Name]
+			}
+		}
+		if bound != nil {
+			cenv := e.specEnv(fr, st, nil)
+			for k, v := range fr.entryParams {
+				if _, isLocal := fr.locals[k]; !isLocal {
+					cenv.vars[k] = v
+				}
+			}
+			env.vars[gp.Name] = cenv.eval(bound)
+		} else {
+			t := env.resolveType(gp.Type)
+			if t == nil {
+				t = types.Typ[types.Int]
+			}
+			env.vars[gp.Name] = e.havocVal(st, t, "ghost_"+gp.Name)
+			e.note("%s: ghost parameter %s of %s is not bound by a callghost clause: arbitrary", e.w.pos(pos), gp.Name, key)
+		}
+	}
 	for _, c := range spec.Requires {
 		v := env.eval(c.E)
 		o := e.oblige(fr, st, "pre:"+short, "precondition of "+key+": "+c.Src, pos, v.T)
